@@ -5,6 +5,9 @@ import (
 	"math/big"
 	"strings"
 
+	sdkmath "cosmossdk.io/math"
+	sdk "github.com/cosmos/cosmos-sdk/types"
+	banktypes "github.com/cosmos/cosmos-sdk/x/bank/types"
 	channeltypes "github.com/cosmos/ibc-go/v8/modules/core/04-channel/types"
 
 	"orbverif/fw"
@@ -234,6 +237,11 @@ func CheckC14(e *fw.Env, l *Lab) {
 			aftermath(e, l, ctx, t, hs)
 		}
 	}
+	// 4b. a sample in real transactions: the relayer's batch [MsgSend, MsgRecvPacket] must not be
+	// aborted by the receive path (a recovered panic fails the whole transaction: code 111222).
+	if e.Shard < 4 || e.Thorough() {
+		batchAbortSample(e)
+	}
 	// 5. envelopes: arbitrary port / channel identifiers (mode C only).
 	ids := []string{"", "transfer", "channel-0", "channel-1", "channel-18446744073709551615", "channel-18446744073709551616",
 		"channel--1", "channel-01", "x", strings.Repeat("c", 65), "channel-0/..", "CHANNEL-0", "channel-0 ", "07-tendermint-0", "💥"}
@@ -285,4 +293,66 @@ func trunc(s string, n int) string {
 		return s[:n] + "…"
 	}
 	return s
+}
+
+// batchAbortSample delivers hostile packets in real signed transactions that also carry another
+// message of the relayer, on a fresh world.
+func batchAbortSample(e *fw.Env) {
+	l, err := NewLab(world.Config{})
+	if err != nil {
+		e.Res.Inconc("world: %v", err)
+		return
+	}
+	w := l.W
+	rel := w.K("relayer")
+	var memos []string
+	for _, tpl := range l.Templates() {
+		muts := MutateMemo(tpl)
+		for k := 0; k < 12; k++ {
+			m := muts[e.R.Intn(len(muts))]
+			if len(m.Memo) < 5000 {
+				memos = append(memos, m.Memo)
+			}
+		}
+	}
+	memos = append(memos, MultiDefectMemos(l)[:10]...)
+	n := 40
+	if e.Thorough() {
+		n = 400
+	}
+	for i := 0; i < n; i++ {
+		var t run.Transfer
+		if i%2 == 0 {
+			t = l.NewTransfer(e.R, world.USDC, big.NewInt(1_000_000), nil)
+			t.Memo = memos[e.R.Intn(len(memos))]
+		} else {
+			t, _ = genHostile(e.R, l, 5)
+			if t.Denom == world.BIG {
+				continue
+			}
+		}
+		pkt := w.ForgePacket(w.Ctx(), t.Pair, t.Data())
+		send := &banktypes.MsgSend{FromAddress: rel.String(), ToAddress: w.K("dave").String(), Amount: sdk.NewCoins(sdk.NewCoin(world.STAKE, sdkmath.NewInt(1)))}
+		e.Log(map[string]any{"batch_tx": t})
+		res, err := w.RecvT(pkt, send)
+		if err != nil {
+			e.Res.Inconc("deliver: %v", err)
+			return
+		}
+		e.Res.Eval()
+		if res.Code != 0 {
+			kind := "relayer-batch-failed"
+			if res.Panic != nil {
+				kind = "relayer-batch-aborted-by-panic"
+			}
+			e.Res.Violate(fw.Violation{Property: "C14", Kind: kind, Detail: fmt.Sprintf("transaction [MsgSend, MsgRecvPacket] failed: %v", res.Err),
+				Witness: map[string]any{"transfer": t, "log": trunc(res.Log, 800)}})
+			continue
+		}
+		if res.Ack == nil {
+			e.Res.Violate(fw.Violation{Property: "C14", Kind: "no-acknowledgement", Detail: "no acknowledgement written in a real transaction", Witness: t})
+			continue
+		}
+		e.Res.Sig("T-batch|%v", res.AckOK)
+	}
 }
